@@ -215,6 +215,73 @@ Proof. exact old_commit_ignored. Qed.
 Print Assumptions C09_old_commit_ignored.
 
 (* ---------------------------------------------------------------------------------------------- *)
+(* where the code is NOT exact — recorded known findings of C09 (key in known_findings.json)        *)
+(* ---------------------------------------------------------------------------------------------- *)
+
+(* [C09:lastcommit-not-monotone]  FULL statement (the converse "an expiry removes only expired groups"), FALSE for the code:
+     forall reachable s, in_i64 ((now - expire) * 1000) -> get s c = Some cl -> get (cl_consumer cl) g = Some grp ->
+       obs cf now s (FetchConsumer c g) = Some RNil -> forall ts, In ts (stored_ts grp) -> ts < (now - expire) * 1000.
+   consumerGroup.lastCommit is overwritten by every appended commit of any partition and so can move backwards.
+   Witness (replayed on the real code, see findings/C09.json): expire-group 1000 s; at 2000 s partition 0 commits with
+   timestamp 1 900 000, then partition 1 gets its first commit with timestamp 1 100 000; at 2200 s (cut-off 1 200 000) the
+   group is reported not found and is unlisted although it stores a commit that is 300 s old. *)
+Theorem C09_not_expired_but_purged_refuted :
+  exists cf cls h s reps now c g cl grp ts,
+    NoDup cls /\ run cf (init_state cls) h = Some (s, reps) /\ in_i64 ((now - cf_expire cf) * 1000) /\
+    get s c = Some cl /\ get (cl_consumer cl) g = Some grp /\
+    In ts (stored_ts grp) /\ ~ ts < (now - cf_expire cf) * 1000 /\
+    obs cf now s (FetchConsumer c g) = Some RNil /\
+    ~ In g (names (obs cf now (after cf now s (FetchConsumer c g)) (FetchConsumers c))).
+Proof. exact not_expired_but_purged_refuted. Qed.
+Print Assumptions C09_not_expired_but_purged_refuted.
+
+(* what IS proved (the guard that excludes the finding: the MOST RECENTLY APPENDED commit instead of the newest one):
+   a group is answered not-found exactly when g_last is older than the cut-off, and g_last is, after every commit, either that
+   commit's timestamp (it was appended) or what it was before; nothing but a commit changes it (owner updates, clears and
+   deletions keep the field: Storage.add_consumer_owner / clear_owners_group / delete_topic / delete_group by definition). *)
+Theorem C09_purged_iff_last_appended_expired_partial :
+  forall cf now s c g cl grp,
+    in_i64 ((now - cf_expire cf) * 1000) ->
+    get s c = Some cl -> get (cl_consumer cl) g = Some grp ->
+    (obs cf now s (FetchConsumer c g) = Some RNil <-> g_last grp < (now - cf_expire cf) * 1000).
+Proof. exact purged_iff_last_appended_expired. Qed.
+Print Assumptions C09_purged_iff_last_appended_expired_partial.
+
+Theorem C09_g_last_after_commit :
+  forall cf now s c g t p off order ts s' rep cl' grp',
+    step cf now s (SetConsumerOffset c g t p off order ts) = Done s' rep ->
+    get s' c = Some cl' -> get (cl_consumer cl') g = Some grp' ->
+    g_last grp' = ts \/ exists cl, get s c = Some cl /\ g_last grp' = g_last (grp_or_empty cl g).
+Proof. exact g_last_after_commit. Qed.
+Print Assumptions C09_g_last_after_commit.
+
+(* [C09:empty-group-foreign-topic-delete]  FULL statement ("deleting what does not exist changes nothing"), FALSE for the code:
+     forall reachable s, t <> 0 -> get (g_topics grp) t = None ->
+       forall x, In x (names (obs .. (after .. (DeleteGroup c g t)) (FetchConsumers c))) <-> In x (names (obs .. s (FetchConsumers c))).
+   Witness: an owner update for a topic the brokers do not know creates a group without topics; delete-group-topic for a topic it
+   never had drops it from the consumer list. *)
+Theorem C09_delete_foreign_topic_unlists_group_refuted :
+  exists cf cls h s reps now c g t cl grp,
+    NoDup cls /\ run cf (init_state cls) h = Some (s, reps) /\ t <> 0 /\
+    get s c = Some cl /\ get (cl_consumer cl) g = Some grp /\ get (g_topics grp) t = None /\
+    In g (names (obs cf now s (FetchConsumers c))) /\
+    ~ In g (names (obs cf now (after cf now s (DeleteGroup c g t)) (FetchConsumers c))).
+Proof. exact delete_foreign_topic_unlists_group_refuted. Qed.
+Print Assumptions C09_delete_foreign_topic_unlists_group_refuted.
+
+(* proved with the guard that excludes the finding (the group has at least one topic); C09_delete_group_topic_listing states
+   the general case exactly as the code behaves *)
+Theorem C09_delete_foreign_topic_keeps_nonempty_group_partial :
+  forall cf now now' s c g t cl grp,
+    wf_state s -> t <> 0 ->
+    get s c = Some cl -> get (cl_consumer cl) g = Some grp -> get (g_topics grp) t = None -> g_topics grp <> [] ->
+    let s' := after cf now s (DeleteGroup c g t) in
+    (forall x, In x (names (obs cf now' s' (FetchConsumers c))) <-> In x (names (obs cf now' s (FetchConsumers c)))) /\
+    obs cf now' s' (FetchConsumer c g) = obs cf now' s (FetchConsumer c g).
+Proof. exact delete_foreign_topic_keeps_nonempty_group. Qed.
+Print Assumptions C09_delete_foreign_topic_keeps_nonempty_group_partial.
+
+(* ---------------------------------------------------------------------------------------------- *)
 (* histories: after the deletion, and until a later ingest re-creates the item, no reply mentions it *)
 (* ---------------------------------------------------------------------------------------------- *)
 
